@@ -31,8 +31,28 @@ WORLDS: dict[str, dict[str, str]] = {
         "b.py": "from c import f, C, nope\nimport nowhere\nf('')\nf(1, 2)\nC().zzz\n",
         "a.py": "import b\nimport c\nx: int = c.f(1)\nreveal_type(c.C().m())\n",
     },
+    # an import cycle in which every module has diagnostics (hash seed must not order the replayed blocks of a warm run)
+    "cycle": {
+        "a.py": "import b\nimport d\ndef fa() -> int:\n    return b.fb()\nxa: str = 1\n",
+        "b.py": "import c\ndef fb() -> str:\n    return c.fc()\nxb: int = ''\n",
+        "c.py": "import d\ndef fc() -> int:\n    return d.fd()\nxc: str = 2\n",
+        "d.py": "import a\ndef fd() -> str:\n    return a.fa()\nxd: int = ''\n",
+        "e.py": "import f\nxe: int = f.xf\n",
+        "f.py": "import e\nxf: str = e.xe\nreveal_type(e.xe)\n",
+    },
+    # misspelt standard-library imports: the 'Did you mean' suggestions depend on the TARGET version of this build only
+    "typo": {
+        "a.py": "import b\nimport distutil\nimport tomlib\n",
+        "b.py": "import c\nimport asyncor\nimport imp_\nfrom zoneinf import ZoneInfo\n",
+        "c.py": "import graphlb\nx: int = ''\n",
+    },
 }
 FILES = ["a.py", "b.py", "c.py"]
+PRIOR_OPTS: dict[str, dict[str, Any]] = {
+    "same": {},
+    "py310": {"python_version": (3, 10)},
+    "win311loose": {"python_version": (3, 11), "platform": "win32", "strict_optional": False, "allow_redefinition": True},
+}
 
 
 def materialise(root: str, wname: str) -> None:
@@ -61,10 +81,11 @@ def digest_cache(cache: str) -> tuple[str, dict[str, str]]:
 def one_config(cfg: dict[str, Any], base: str) -> dict[str, Any]:
     fmt = cfg.get("fmt", "ff")
     # prior builds: other worlds, each in its own directory, same interpreter
-    for i, pw in enumerate(cfg["prior"]):
+    for i, pe in enumerate(cfg["prior"]):
+        pw, po = (pe["world"], pe["opts"]) if isinstance(pe, dict) else (pe, "same")
         pr = os.path.join(base, "prior%d" % i)
         materialise(pr, pw)
-        W.build_in_process(pr, [(f, f[:-3]) for f in FILES], dict(cache_dir="cache", store="fs", fmt=fmt, alt_lib="."), W.new_ctl(record=False))
+        W.build_in_process(pr, [(f, f[:-3]) for f in FILES], dict(cache_dir="cache", store="fs", fmt=fmt, alt_lib=".", **PRIOR_OPTS[po]), W.new_ctl(record=False))
     root = os.path.join(base, "main")
     materialise(root, cfg["world"])
     srcs = [(FILES[i - 1], FILES[i - 1][:-3]) for i in cfg["order"]]
